@@ -56,7 +56,18 @@ func recOf(name, title string, count int, kids ...vals.V) vals.V {
 }
 
 func mapOf(name string, n int) vals.V {
-	return vals.Map(map[string]vals.V{"name": vals.Str(name), "n": vals.Int(n)})
+	return vals.Map(map[string]vals.V{"name": vals.Str(name), "n": vals.Int(n), "body": vals.Str(bodyOpen + name + bodyClose)})
+}
+
+// htmlPath is the path below name whose value is inserted with v-html: the marked-up body of a
+// map item, else the same scalar the other reads use.
+func htmlPath(sc sscope, d Data, name, scalar string) string {
+	if s, ok := sc.lookup(d, name); ok && s.K == "map" {
+		if _, has := field(s, "body"); has {
+			return name + ".body"
+		}
+	}
+	return scalar
 }
 
 // sampleElem is a typical item of a collection description.
@@ -135,7 +146,7 @@ func scalarPaths(sc sscope, d Data, name string) (paths []string, samples []vals
 // readsFor writes the candidate reads of one name: plain text always; the expression positions
 // (ternary, v-if, bound attribute) unless the name must stay out of expressions. choose picks
 // which scalar path below a record is used and which positions are kept (nil = all, path 0).
-func readsFor(sc sscope, d Data, name string, salt int, choose func(n int) int) []Read {
+func readsFor(sc sscope, d Data, name string, salt int, choose func(n int) int, rich bool) []Read {
 	paths, samples, bound, ok := scalarPaths(sc, d, name)
 	if !ok {
 		return nil
@@ -185,6 +196,23 @@ func readsFor(sc sscope, d Data, name string, salt int, choose func(n int) int) 
 	if s.K == "bool" && keep() {
 		out = append(out, Read{Pos: "vif", Cond: Cond{Path: path}})
 	}
+	if !rich {
+		return out
+	}
+	// constructs the engine evaluates by rewriting / specially treating the node
+	cond := Cond{Path: path, Op: op, Lit: litFor(s, salt+2)}
+	if s.K == "bool" {
+		cond = Cond{Path: path}
+	}
+	hp := htmlPath(sc, d, name, path)
+	for _, r := range []Read{
+		{Pos: "thtml", Cond: Cond{Path: hp}}, {Pos: "vhtml", Cond: Cond{Path: hp}}, {Pos: "vtext", Cond: Cond{Path: path}},
+		{Pos: "vshow", Cond: cond}, {Pos: "class", Cond: cond}, {Pos: "style", Cond: Cond{Path: path}},
+	} {
+		if keep() {
+			out = append(out, r)
+		}
+	}
 	return out
 }
 
@@ -215,9 +243,15 @@ func uniq(names []string) []string {
 }
 
 func probeOf(id string, sc sscope, d Data, names []string, salt int, choose func(int) int) Node {
+	return probeRich(id, sc, d, names, salt, choose, "")
+}
+
+// probeRich is probeOf with the node-rewriting constructs (v-html, <template v-html>, v-text,
+// v-show, :class / :style objects) for the name richName.
+func probeRich(id string, sc sscope, d Data, names []string, salt int, choose func(int) int, richName string) Node {
 	p := &Probe{ID: id}
 	for i, n := range uniq(names) {
-		p.Reads = append(p.Reads, readsFor(sc, d, n, salt+i, choose)...)
+		p.Reads = append(p.Reads, readsFor(sc, d, n, salt+i, choose, n == richName)...)
 	}
 	if len(p.Reads) == 0 {
 		p.Reads = []Read{{Pos: "text", Cond: Cond{Path: "u1"}}}
@@ -288,8 +322,8 @@ func rootSetups() []rootSetup {
 var elseSeps = []string{"", " ", "\n  ", "<!-- c -->", "\n<!-- c -->\n"}
 
 // core1 enumerates single loops. full = the whole product; otherwise the three cheapest
-// dimensions (v-else separator beyond "absent / adjacent", which v-if, element or <template>)
-// are not multiplied out but rotated, so that every value of every dimension still meets every
+// dimensions (v-else separator beyond "absent / adjacent", which v-if, element or <template>,
+// fresh or shadowing index name) are not multiplied out but rotated, so that every value of every dimension still meets every
 // root kind x collection x variable name x form.
 func core1(full bool, yield func(Case) bool) {
 	var colls []vals.V
@@ -304,7 +338,7 @@ func core1(full bool, yield func(Case) bool) {
 	}
 	colls = append(colls, vals.V{K: "nil[]any"}, vals.Nil(), vals.Missing())
 	apis := []string{"string", "fragment", "load"}
-	i, rot := 0, 0
+	i, rot, rotIdx := 0, 0, 0
 	for _, rs := range rootSetups() {
 		for _, coll := range colls {
 			if rs.only != "" && coll.K != rs.only && coll.K != "missing" {
@@ -326,7 +360,13 @@ func core1(full bool, yield func(Case) bool) {
 			varNames := append([]string{"v"}, rs.shadow...)
 			varNames = append(varNames, collName)
 			for _, vn := range varNames {
-				for _, idx := range []string{"", "i", rs.idxName} {
+				idxNames := []string{"", "i", rs.idxName}
+				if !full {
+					// quick tier: the index name (fresh / shadowing a root int) is rotated as well
+					idxNames = []string{"", idxNames[1+rotIdx%2]}
+					rotIdx++
+				}
+				for _, idx := range idxNames {
 					if idx == vn {
 						continue
 					}
@@ -387,7 +427,7 @@ func core1(full bool, yield func(Case) bool) {
 						// read: the loop's names and every root name a loop variable shadows in this setup
 						names := append([]string{vn, idx}, rs.shadow...)
 						names = append(names, rs.idxName)
-						l.Body = []Node{probeOf("p1", inner, d, names, i, nil)}
+						l.Body = []Node{probeRich("p1", inner, d, names, i, nil, vn)}
 						if cb.els >= 0 {
 							l.Else = &Else{ID: "E1", Sep: elseSeps[cb.els], Body: []Node{only(probeOf("p2", outer, d, []string{vn, idx}, i, nil), "text", "tern")}}
 						}
@@ -451,7 +491,7 @@ func core2(yield func(Case) bool) {
 								}
 								in := o.with(ii, vals.Int(0), iv, innerSample)
 								inner := &Loop{ID: "L2", Tag: []string{"div", "section", "template"}[i%3], Idx: ii, Var: iv, Coll: innerColl,
-									Body: []Node{probeOf("p2", in, d, pool, i, nil)}}
+									Body: []Node{probeRich("p2", in, d, pool, i, nil, iv)}}
 								if els {
 									inner.Else = &Else{ID: "E2", Sep: elseSeps[i%len(elseSeps)], Body: []Node{only(probeOf("p3", o, d, pool, i, nil), "text", "tern")}}
 								}
@@ -717,11 +757,20 @@ func (g *gen) loop(sc sscope, depth int, outerVars []string) []Node {
 			l.Bind = p[0]
 		}
 	}
+	// now and then the looped element itself carries v-html / v-text of its item (no body then)
+	if l.Tag != "template" && g.int(0, 7, "fill") == 0 {
+		if p, _, bound, ok := scalarPaths(inner, g.d, l.Var); ok && bound && !noExpr(p[0]) {
+			l.Fill = &Fill{Dir: "v-text", Path: p[0]}
+			if g.int(0, 1, "filldir") == 0 {
+				l.Fill = &Fill{Dir: "v-html", Path: htmlPath(inner, g.d, l.Var, p[0])}
+			}
+		}
+	}
 	// nested loops first, so that the probes of this instance can also read *their* variable
 	// names: before the nested loop they must still mean what they mean here, afterwards again
 	var nested []Node
 	var nestedNames []string
-	if depth < 3 {
+	if depth < 3 && l.Fill == nil {
 		for k := g.int(0, 2, "nnested"); k > 0; k-- {
 			inVars := uniq(append(append([]string{}, outerVars...), l.Var, l.Idx))
 			ns := g.loop(inner, depth+1, inVars)
@@ -730,11 +779,13 @@ func (g *gen) loop(sc sscope, depth int, outerVars []string) []Node {
 		}
 	}
 	all := append(append([]string{}, names...), nestedNames...)
-	l.Body = []Node{probeOf(g.id("p"), inner, g.d, all, g.int(0, 19, "salt"), g.chooser())}
+	if l.Fill == nil {
+		l.Body = []Node{probeRich(g.id("p"), inner, g.d, all, g.int(0, 19, "salt"), g.chooser(), l.Var)}
+	}
 	if len(nested) > 0 {
 		l.Body = append(l.Body, nested...)
 		// the loop's own bindings again, after the nested loops
-		l.Body = append(l.Body, probeOf(g.id("p"), inner, g.d, all, g.int(0, 19, "salt"), g.chooser()))
+		l.Body = append(l.Body, probeRich(g.id("p"), inner, g.d, all, g.int(0, 19, "salt"), g.chooser(), g.pick(uniq([]string{l.Var, l.Idx}), "rich")))
 	}
 	if g.int(0, 1, "else") == 1 {
 		l.Else = &Else{ID: g.id("E"), Sep: g.pick(elseSeps, "sep")}
@@ -786,6 +837,9 @@ func classify(c Case) (bool, []string) {
 			}
 			if l.Bind != "" {
 				cls["bind-on-loop-root"] = true
+			}
+			if l.Fill != nil {
+				cls["loop-root:"+l.Fill.Dir] = true
 			}
 			head := strings.SplitN(l.Coll, ".", 2)[0]
 			if strings.Contains(l.Coll, ".") {
